@@ -51,6 +51,35 @@ def strategy(tier):
                      st.booleans(), st.lists(_step(), min_size=1, max_size=14))
 
 
+ALPHA = ["q0", "q1", "q0same", "burst0", "stop", "start", "T-q", "T+q", "+0.003"]
+ENUM_LEN = {"quick": 5, "thorough": 6}
+EXHAUSTIVE = {"quick": "all 9^5 = 59049 sequences of length 5 over {queue for multicast, queue for a peer, queue an entry with the ids of the previous one, burst of 17, announcer stop, start} x timing prefixes {collector timer -RES/4, +RES/4, +3 ms}, collection timeout 5 ms, two announced instances",
+              "thorough": "all 9^6 = 531441 sequences of length 6 over the same alphabet"}
+
+
+def enum_size(tier):
+    return len(ALPHA) ** ENUM_LEN[tier]
+
+
+def enum_case(tier, idx):
+    steps = []
+    when = ["d", 0.001]
+    for _ in range(ENUM_LEN[tier]):
+        idx, r = divmod(idx, len(ALPHA))
+        a = ALPHA[r]
+        if a in ("T-q", "T+q", "+0.003"):
+            when = {"T-q": ["t", 0, "-q"], "T+q": ["t", 0, "+q"], "+0.003": ["d", 0.003]}[a]
+            continue
+        if a in ("stop", "start"):
+            steps.append({"op": a, "when": when})
+        elif a == "burst0":
+            steps.append({"op": "burst", "n": 17, "d": 0, "kind": "stop", "when": when})
+        else:
+            steps.append({"op": "q", "d": 1 if a == "q1" else 0, "kind": "stop" if a == "q0same" else "offer", "re": a == "q0same", "when": when})
+        when = ["d", 0.001]
+    return {"coll": 0.005, "inst": True, "steps": steps}
+
+
 def fixed_cases(tier):
     out = []
     for coll in (0, 0.005, 0.05):
